@@ -1,4 +1,5 @@
-//! S5 — the likely-subtags tables on a simulated **big-endian** machine.
+//! S5 — the likely-subtags tables on simulated machines other than the host: **big-endian**
+//! (s390x) and **32-bit** (i686).
 //!
 //! The tables are integers that spell ASCII subtags in little-endian byte order, and the lookup
 //! turns them into subtags with `unsafe … from_raw_unchecked` ("safe because all table entries are
@@ -6,7 +7,9 @@
 //! target's byte order as much as of the integers. This program looks rows of the compiled tables
 //! (read through the cfg(unic_locale_verif) hook) up through the real `likelysubtags::maximize`
 //! and compares what comes back — as text — with the row decoded independently (shift and mask, no
-//! byte-order-dependent operation). It is run under Miri for a big-endian target.
+//! byte-order-dependent operation). It is run under Miri for a big-endian target and for a 32-bit
+//! target (a lookup that computes in `usize` — a hash index frozen by the 64-bit generator host —
+//! finds nothing there: seeded `m37`).
 //!
 //!   becheck <stride>      look up every <stride>-th row of every table (first and last always)
 //!
@@ -163,10 +166,11 @@ fn main() {
         probe(&mut t, "REGION_ONLY", i, (None, None, Some(k)), v);
     }
     println!(
-        "BE-ROWS looked_up={} wrong={} endian={}",
+        "BE-ROWS looked_up={} wrong={} endian={} width={}",
         t.looked_up,
         t.wrong,
-        if cfg!(target_endian = "big") { "big" } else { "little" }
+        if cfg!(target_endian = "big") { "big" } else { "little" },
+        usize::BITS
     );
     if t.wrong > 0 {
         std::process::exit(1);
